@@ -2,7 +2,7 @@
    Print Assumptions. *)
 From Coq Require Import ZArith QArith List Bool.
 From Centro Require Import Model.Circle Model.Feret Model.HullFill Spec.MecSpec Spec.FeretSpec Spec.FeretLower Spec.FillSpec
-  Proofs.MecProofs Proofs.CircleProofs Proofs.FeretProofs Proofs.FeretLowerProofs Proofs.SweepProofs Proofs.FillProofs Proofs.FillEdgeProofs.
+  Proofs.MecProofs Proofs.CircleProofs Proofs.FeretProofs Proofs.FeretLowerProofs Proofs.SweepProofs Proofs.FillProofs Proofs.FillEdgeProofs Proofs.FillModelProofs.
 
 (* Full.  Soundness of the certificate checker that is run on the exact circle reconstructed from
    the implementation's output: the circle contains every pixel centre of S and no circle
@@ -123,15 +123,16 @@ Theorem C14_fill_edge_exact : forall l p q e,
 Proof. exact edge_entries_exact. Qed.
 Print Assumptions C14_fill_edge_exact.
 
-(* ... and every row between p and q gets one.
-   Partial as a statement about the whole scan-line model: together with C14_fill_run_exact these
-   give "per row, the columns between the exact intersections of two hull edges with the row".
-   Missing for fill_model = specified set: the sort/group bookkeeping (first and last entry of a
-   (label, row) group are the extreme intersections) and the convexity argument (the polygon meets
-   a row in the segment between its extreme boundary points).  On every run fill_model's output is
-   compared exactly with the implementation's, whose output passes the verified fill_ok. *)
-Theorem C14_fill_spec_partial : forall l p q i,
-  fst p <> fst q -> (Z.min (fst p) (fst q) <= i <= Z.max (fst p) (fst q))%Z ->
-  exists e, In e (snd (edge_entries l p q)) /\ e_i e = i.
-Proof. exact edge_entries_complete. Qed.
-Print Assumptions C14_fill_spec_partial.
+(* Full.  The scan-line model of fill_convex_hulls as written (closing edge, n_i rows per edge,
+   horizontal special case, exact interpolation, lexsort, runs, first/last entry, ceil/floor) is
+   correct for EVERY list of objects with distinct labels whose vertex cycles are convex (all
+   vertices on one closed side of every edge, either orientation, including one- and two-vertex
+   objects): its rows are pairwise distinct and are exactly the lattice points inside or on the
+   polygons, with the polygon's label.  The model is compared exactly, rows in order, with the
+   implementation on every run, and the boolean hypothesis is evaluated on every run's hulls. *)
+Theorem C14_fill_spec : forall objs,
+  fill_hyp_ok objs = true ->
+  NoDup (fill_model objs) /\
+  forall i j l, In (i, j, l) (fill_model objs) <-> exists H, In (l, H) objs /\ inside H (i, j) = true.
+Proof. exact fill_model_spec. Qed.
+Print Assumptions C14_fill_spec.
